@@ -42,13 +42,16 @@ const (
 	c16AllocFix = 64 << 20
 )
 
-var c16Parsers = []string{"gob", "csv", "json", "auto", "http-targets", "json-targets", "buckets", "rate", "header", "max-body", "connect-to", "resolvers"}
+var c16Parsers = []string{"gob", "csv", "json", "auto", "http-targets", "json-targets", "buckets", "rate", "header", "max-body", "connect-to", "resolvers", "commands"}
 
 // all measured parser calls are serialised: TotalAlloc deltas then belong to the call
 var c16mu sync.Mutex
 
 // ---- valid documents of every format ---------------------------------------------------------
 func c16Valid(rng *rand.Rand, parser int) []byte {
+	if parser == 12 {
+		parser = 3 // the commands read result streams in any of the three encodings
+	}
 	switch parser {
 	case 0, 1, 2, 3:
 		n := 1 + rng.Intn(4)
@@ -185,6 +188,7 @@ var c16Edge = map[int][]string{
 	9:  {"", " ", "B", "-0", "1e3", "9999999999999999999999GB", "1.5.5MB"},
 	10: {":::", "a:b:c", "::::", "a:1:b", "a:1:b:2:c", "[::1]:80:[::2]:81", "a:x:b:y"},
 	11: {"", ",", ",,", ":", "[", "[::1", "1.2.3.4:99999", "a,b,c,"},
+	12: {"", "\n", "x", "1,2,3\n", "{}\n", "\x00\x01"},
 }
 
 func c16Input(rng *rand.Rand, parser int, idx int) ([]byte, string) {
@@ -331,6 +335,12 @@ func runC16(idx int, rng *rand.Rand, tier string) []Case {
 	if parser == 4 {
 		in = c16Sandbox(in)
 	}
+	if parser == 12 {
+		if e := c16Edge[12]; idx/len(c16Parsers) >= len(e) && (idx/len(c16Parsers))%8 != 0 {
+			return nil // a process per case: one case in eight
+		}
+		return c16Command(idx, rng, in, how)
+	}
 	c16mu.Lock()
 	defer c16mu.Unlock()
 	if c16Hangs[parser] >= 3 {
@@ -466,3 +476,70 @@ func trunc(s string, n int) string {
 }
 
 var _ = io.EOF
+
+
+// the report / encode / plot commands reading arbitrary bytes from a file: each must end by itself
+// within the time limit, with a bounded amount of output, and without a Go panic
+type capWriter struct {
+	n    int64
+	over chan struct{}
+}
+
+func (c *capWriter) Write(p []byte) (int, error) {
+	c.n += int64(len(p))
+	if c.n > 64<<20 {
+		select {
+		case c.over <- struct{}{}:
+		default:
+		}
+	}
+	return len(p), nil
+}
+
+func c16Command(idx int, rng *rand.Rand, in []byte, how string) []Case {
+	f := writeTemp(idx, "c16cmd.bin", in)
+	defer os.Remove(f)
+	sub := [][]string{{"report"}, {"report", "-type", "json"}, {"encode", "-to", "csv"}, {"encode"}, {"plot"}}[rng.Intn(5)]
+	args := append(append([]string(nil), sub...), f)
+	if rng.Intn(4) == 0 {
+		args = append(args, f) // the same file twice: the several-inputs path
+	}
+	cmd := exec.Command(os.Getenv("VERIF_VEGETA"), args...)
+	cw := &capWriter{over: make(chan struct{}, 1)}
+	var errb bytes.Buffer
+	cmd.Stdout = cw
+	cmd.Stderr = &errb
+	if err := cmd.Start(); err != nil {
+		panic(err)
+	}
+	done := make(chan error, 1)
+	go func() { done <- cmd.Wait() }()
+	final := c16Error
+	select {
+	case <-done:
+		if strings.Contains(errb.String(), "panic:") || strings.Contains(errb.String(), "goroutine 1 [") {
+			final = c16Panic
+		}
+	case <-cw.over:
+		cmd.Process.Kill()
+		<-done
+		final = c16Hang // unbounded output from a bounded input
+	case <-time.After(c16Timeout):
+		cmd.Process.Kill()
+		<-done
+		final = c16Hang
+	}
+	var c Case
+	w := &c.W
+	w.Z(1)
+	w.I(12)
+	w.Bytes(in)
+	w.I(0)
+	w.I(final)
+	w.I(0)
+	w.U(0)
+	c.Tag = "commands;nt"
+	c.Dist = "commands " + sub[0] + " " + how + " -> " + []string{"value", "returned", "panic", "hang"}[final]
+	c.Sample = map[string]interface{}{"command": strings.Join(sub, " "), "input": fmt.Sprintf("%q", trunc(string(in), 80)), "outcome": final, "stderr": trunc(errb.String(), 160)}
+	return []Case{c}
+}
